@@ -11,6 +11,7 @@
 #include "myth_spinlock_func.h"
 #include "myth_misc_func.h"
 #include "myth_mem_barrier_func.h"
+#include "myth_verif.h"
 
 static inline void myth_wsqueue_lock_init(myth_spinlock_t * lock) {
 #if !USE_LOCK
@@ -114,6 +115,9 @@ static inline void myth_queue_init(myth_thread_queue_t q){
   pthread_mutexattr_destroy(&attr);
 #endif
   q->size = INITIAL_QUEUE_SIZE;
+#ifdef MYTH_VERIF_QUEUE_SIZE
+  q->size = MYTH_VERIF_QUEUE_SIZE;
+#endif
   q->ptr = myth_malloc(sizeof(myth_thread_t)*q->size);
   memset(q->ptr,0,sizeof(myth_thread_t)*q->size);
   q->base = q->size/2;
@@ -155,12 +159,14 @@ static inline void __attribute__((always_inline)) myth_queue_push(myth_thread_qu
   myth_spin_lock_body(&q->m_lock);
 #endif
   //Check
+  MYTH_VERIF_POINT("wsq.push.readtop", q, th);
   int t = q->top;
   //read barrier
   myth_wsqueue_rbarrier();
   if (t == q->size){
     //Acquire lock
     myth_wsqueue_lock_lock(&q->lock);
+    MYTH_VERIF_POINT("wsq.push.recentre", q, th);
     //Runqueue full?
     if (q->base == 0){
       myth_assert(0);
@@ -181,8 +187,10 @@ static inline void __attribute__((always_inline)) myth_queue_push(myth_thread_qu
     myth_wsqueue_lock_unlock(&q->lock);
   }
   //Do not need to extend of move.
+  MYTH_VERIF_POINT("wsq.push.slot", q, th);
   q->ptr[t] = th;
   myth_wsqueue_wbarrier();//Guarantee W-W dependency
+  MYTH_VERIF_POINT("wsq.push.top", q, th);
   q->top = t + 1;
 #if USE_LOCK || USE_LOCK_PUSH
   myth_spin_unlock_body(&q->m_lock);
@@ -196,6 +204,7 @@ static inline myth_thread_t __attribute__((always_inline)) myth_queue_pop(myth_t
   myth_queue_enter_operation(q);
 
 #if QUICK_CHECK_ON_POP
+  MYTH_VERIF_POINT("wsq.pop.quick", q, 0);
   if (q->top <= q->base) {
     return NULL;
   }
@@ -206,13 +215,17 @@ static inline myth_thread_t __attribute__((always_inline)) myth_queue_pop(myth_t
 #endif
   myth_thread_t ret;
   int top,base;
+  MYTH_VERIF_POINT("wsq.pop.readtop", q, 0);
   top = q->top;
   top--;
+  MYTH_VERIF_POINT("wsq.pop.writetop", q, top);
   q->top = top;
   //Decrement and check top
   myth_wsqueue_rwbarrier();
+  MYTH_VERIF_POINT("wsq.pop.readbase", q, top);
   base = q->base;
   if (base + 1 < top){
+    MYTH_VERIF_POINT("wsq.pop.fastslot", q, top);
     ret = q->ptr[top];
     //q->ptr[top]=NULL;
 #if USE_LOCK || USE_LOCK_POP
@@ -222,6 +235,7 @@ static inline myth_thread_t __attribute__((always_inline)) myth_queue_pop(myth_t
     return ret;
   } else {
     myth_wsqueue_lock_lock(&q->lock);
+    MYTH_VERIF_POINT("wsq.pop.slow", q, top);
     base = q->base;
     if (base <= top){//OK
       ret = q->ptr[top];
@@ -274,6 +288,7 @@ static inline myth_thread_t myth_queue_take(myth_thread_queue_t q)
   myth_thread_t ret;
   int b,top;
 #if QUICK_CHECK_ON_STEAL
+  MYTH_VERIF_POINT("wsq.take.quick", q, 0);
   if (q->top - q->base <= 0){
     return NULL;
   }
@@ -291,12 +306,16 @@ static inline myth_thread_t myth_queue_take(myth_thread_queue_t q)
   myth_wsqueue_lock_lock(&q->lock);
 #endif
   //Increment base
+  MYTH_VERIF_POINT("wsq.take.readbase", q, 0);
   b = q->base;
+  MYTH_VERIF_POINT("wsq.take.writebase", q, b);
   q->base = b + 1;
   myth_wsqueue_rwbarrier();
+  MYTH_VERIF_POINT("wsq.take.readtop", q, b);
   top = q->top;
   if (b < top){
     myth_wsqueue_rbarrier();
+    MYTH_VERIF_POINT("wsq.take.slot", q, b);
     ret = q->ptr[b];
     //q->ptr[b]=NULL;
     myth_wsqueue_lock_unlock(&q->lock);
@@ -305,6 +324,7 @@ static inline myth_thread_t myth_queue_take(myth_thread_queue_t q)
 #endif
     return ret;
   }else{
+    MYTH_VERIF_POINT("wsq.take.rollback", q, b);
     q->base = b;
     myth_wsqueue_lock_unlock(&q->lock);
 #if USE_LOCK || USE_LOCK_TAKE
@@ -327,10 +347,12 @@ static inline myth_thread_t myth_queue_peek(myth_thread_queue_t q)
   //myth_wsqueue_lock_lock(&q->lock);
   //if (!myth_wsqueue_lock_trylock(&q->lock))return NULL;
   //Increment base
+  MYTH_VERIF_POINT("wsq.peek.read", q, 0);
   b = q->base;
   top = q->top;
   if (b < top){
     myth_wsqueue_rbarrier();
+    MYTH_VERIF_POINT("wsq.peek.slot", q, b);
     ret = q->ptr[b];
     //myth_wsqueue_lock_unlock(&q->lock);
     return ret;
@@ -349,14 +371,17 @@ static inline int myth_queue_trypass(myth_thread_queue_t q,myth_thread_t th)
 #endif
   int ret = 1;
   if (!myth_wsqueue_lock_trylock(&q->lock)) return 0;
+  MYTH_VERIF_POINT("wsq.pass.check", q, th);
   if (q->base == 0){
     ret = 0;
   }
   else{
     int b;
     b = q->base;
+    MYTH_VERIF_POINT("wsq.pass.slot", q, th);
     q->ptr[b-1] = th;
     myth_wsqueue_wbarrier();
+    MYTH_VERIF_POINT("wsq.pass.base", q, th);
     q->base--;
   }
   myth_wsqueue_lock_unlock(&q->lock);
@@ -383,6 +408,7 @@ static inline void myth_queue_put(myth_thread_queue_t q, myth_thread_t th)
   myth_spin_lock_body(&q->m_lock);
 #endif
   myth_wsqueue_lock_lock(&q->lock);
+  MYTH_VERIF_POINT("wsq.put.recentre", q, th);
   if (q->base == 0){
     /* queue underflow at the bottom. move the contents higher */
     if (q->top == q->size){
@@ -402,7 +428,9 @@ static inline void myth_queue_put(myth_thread_queue_t q, myth_thread_t th)
   int b = q->base;
   myth_assert(b > 0);
   b--;
+  MYTH_VERIF_POINT("wsq.put.slot", q, th);
   q->ptr[b] = th;
+  MYTH_VERIF_POINT("wsq.put.base", q, th);
   q->base = b;
   myth_wsqueue_lock_unlock(&q->lock);
 #if USE_LOCK || USE_LOCK_PUSH
